@@ -467,10 +467,10 @@ class Run:
         return self._line
 
     # ---- scheduling
-    def point(self, me: MThread, label: str, frame=None) -> None:
+    def point(self, me: MThread, label: str, frame=None, voluntary: bool = False) -> None:
         if me.atomic or self.aborting:
             return
-        self._schedule(me, True, label)
+        self._schedule(me, True, label, voluntary)
 
     def block(self, me: MThread, can_run: Callable[[], bool], deadline: float | None, why: str) -> None:
         """Block the calling managed thread until can_run() or the clock reaches deadline."""
@@ -489,7 +489,7 @@ class Run:
                 t.sem.release()
         self.done.set()
 
-    def _schedule(self, me: MThread, me_enabled: bool, label: str) -> None:
+    def _schedule(self, me: MThread, me_enabled: bool, label: str, voluntary: bool = False) -> None:
         self.npoints += 1
         if self.npoints > self.max_points:
             self.outcome = "horizon"
@@ -497,7 +497,10 @@ class Run:
             raise AbortRun()
         while True:
             others = [t for t in self.threads if t is not me and t.enabled(self.clock)]
-            enabled = ([me] if me_enabled else []) + others
+            # a blocked caller may itself become runnable again (its deadline reached by a clock
+            # advance decided below, or its condition satisfied by the time it gets here)
+            me_ok = me_enabled or (me.state == "blocked" and me.enabled(self.clock))
+            enabled = ([me] if me_ok else []) + others
             pending = [t.deadline for t in self.threads if t.state == "blocked" and t.deadline is not None and t.deadline > self.clock and not (t.can_run and t.can_run())]
             if not enabled:
                 if pending and min(pending) <= self.horizon:
@@ -530,7 +533,8 @@ class Run:
                         self.outcome = "engine-error:replay-divergence"
                         self._finish()
                         raise AbortRun()
-                self.points.append(Point(len(options), me_enabled, tick_index, choice, label))
+                # a voluntary yield (harness callback "blocking" inside user code) costs no preemption
+                self.points.append(Point(len(options), me_enabled and not voluntary, tick_index, choice, label))
                 self.choices.append(choice)
             pick = options[choice]
             if pick == "tick":
@@ -564,10 +568,12 @@ class atomic:
             me.atomic -= 1
 
 
-def point(label: str = "harness") -> None:
+def point(label: str = "harness", voluntary: bool = False) -> None:
+    """Explicit scheduling point of a harness callback.  voluntary=True models user code that
+    yields the processor by itself (blocking I/O in an observer): switching there is not a preemption."""
     me = cur()
     if me is not None:
-        me.run.point(me, label)
+        me.run.point(me, label, None, voluntary)
 
 
 def run() -> Run:
